@@ -40,15 +40,16 @@ import (
 // ---------------------------------------------------------------- ordering monitor
 
 type vOrd struct {
-	mu       sync.Mutex
-	cond     *sync.Cond
-	seen     map[string]int
-	trace    []string
-	holdAt   string
-	until    string
-	held     int
-	process  int64
-	busyHeld bool
+	mu         sync.Mutex
+	cond       *sync.Cond
+	seen       map[string]int
+	trace      []string
+	holdAt     string
+	until      string
+	held       int
+	process    int64
+	busyHeld   bool
+	realTiming int32
 }
 
 func vNewOrd() *vOrd {
@@ -107,6 +108,9 @@ func (o *vOrd) handlers() *verifHandlers {
 			o.mu.Unlock()
 		},
 		Duration: func(name string, d time.Duration) time.Duration {
+			if atomic.LoadInt32(&o.realTiming) == 1 {
+				return d // the time-out scenario runs with the program's own periods
+			}
 			switch name {
 			case "abaco.readPeriod":
 				return 10 * time.Millisecond // also used with real UDP, where the sender cannot be throttled: 1 s of slack
@@ -586,6 +590,9 @@ func vRunLife(c *vCase) {
 	x := &vLifeRun{c: c, l: l, ord: ord, queued: make(chan func()), dir: filepath.Join(c.Dir, "out")}
 	os.MkdirAll(x.dir, 0o755)
 	scen := r.Intn(6)
+	if v := os.Getenv("VERIF_SCEN"); v != "" { // development aid: force the scenario
+		fmt.Sscan(v, &scen)
+	}
 	c.Describe("source=%s scenario=%d seed=%d idx=%d", kind, scen, c.Seed, c.Idx)
 	canFail := kind == "abaco-udp" || kind == "roach-udp" || kind == "lancero-card"
 	l.feed(true)
@@ -666,9 +673,15 @@ func vRunLife(c *vCase) {
 			x.stop(1)
 			x.afterStop()
 		}
-	case l.selfEnd != nil || kind == "erroring" || (kind == "roach-udp" && scen >= 4):
-		// (Roach, scenario 4: the source ends itself on a TIMEOUT - the sender falls silent and the reader gives up after its 2 s keep-alive)
-		timeoutEnd := kind == "roach-udp"
+	case l.selfEnd != nil || kind == "erroring" || (kind == "roach-udp" && scen >= 4) || (kind == "abaco-udp" && scen == 5):
+		// (Roach scenarios 4/5, Abaco-over-UDP scenario 5: the source ends itself on a TIMEOUT - the sender falls silent and the reader
+		// gives up after its keep-alive time, 2 s for Roach, 5 s for Abaco; the Abaco case runs with the program's own read period)
+		timeoutEnd := kind == "roach-udp" || kind == "abaco-udp"
+		timeoutMS := 2000
+		if kind == "abaco-udp" {
+			timeoutMS = 5000
+			atomic.StoreInt32(&ord.realTiming, 1)
+		}
 		if timeoutEnd {
 			l.selfEnd = func() { l.feed(false) }
 			defer func() { l.selfEnd = nil }()
@@ -699,13 +712,13 @@ func vRunLife(c *vCase) {
 				l.selfEnd()
 			}
 			if settle {
-				for i := 0; i < 3000 && l.ds.GetState() != Inactive; i++ {
+				for i := 0; i < 3000+timeoutMS && l.ds.GetState() != Inactive; i++ {
 					time.Sleep(time.Millisecond)
 				}
 				c.Cov("stops_after_self_termination", 1)
 			} else {
 				if timeoutEnd {
-					time.Sleep(time.Duration(1900+r.Intn(300)) * time.Millisecond) // Stop arrives around the moment the keep-alive expires
+					time.Sleep(time.Duration(timeoutMS-100+r.Intn(300)) * time.Millisecond) // Stop arrives around the moment the keep-alive expires
 				}
 				c.Cov("stops_racing_self_termination", 1)
 			}
